@@ -7,10 +7,10 @@ FieldAlpha ==
   {It("rename", "str"), It("rename", "word"), It("default", "word"), It("default", "path"), It("default", "words"),
    It("with", "path"), It("with", "closure"), It("with", "str"), It("skip", "word"), It("skip", "false"), It("skip", "str"),
    It("map", "str"), It("and_then", "path"), It("map", "closure"), It("multiple", "word"), It("multiple", "false"),
-   It("flatten", "word"), It("flatten", "true"), It("bogus", "word")}
-FieldAlphaSmall == {It("flatten", "word"), It("rename", "str"), It("skip", "word"), It("flatten", "true"), It("rename", "word"), It("with", "str"), It("multiple", "str")}
+   It("flatten", "word"), It("flatten", "true"), It("flatten", "empty"), It("skip", "empty"), It("bogus", "word")}
+FieldAlphaSmall == {It("flatten", "empty"), It("flatten", "word"), It("rename", "str"), It("skip", "word"), It("flatten", "true"), It("rename", "word"), It("with", "str"), It("multiple", "str")}
 
-VariantAlpha == {It("rename", "str"), It("rename", "true"), It("skip", "word"), It("skip", "false"), It("word", "word"), It("word", "false"), It("word", "str"), It("bogus", "str")}
+VariantAlpha == {It("skip", "empty"), It("rename", "str"), It("rename", "true"), It("skip", "word"), It("skip", "false"), It("word", "word"), It("word", "false"), It("word", "str"), It("bogus", "str")}
 
 ContainerAlpha ==
   {It("default", "word"), It("default", "words"), It("rename_all", "rule"), It("rename_all", "str"), It("map", "str"), It("and_then", "str"),
